@@ -27,9 +27,9 @@ Texts == <<
   << Tk("Id", "round"), O("("), Tk("Id", "x"), O(")") >>,                                   \* round(x)
   << O("("), Tk("Id", "y"), O(")"), O("."), Tk("Id", "k") >>                                \* (y).k  : the analysis refuses it
 >>
-Datas == << [x |-> <<"int", 2>>, y |-> <<"map", [k |-> <<"bool", TRUE>>]>>, fail |-> <<"func", "fail">>],
-            [x |-> <<"dec", FALSE, <<2,5>>, -1>>, y |-> <<"map", [k |-> <<"int", 0>>]>>, fail |-> <<"func", "fail">>],
-            [y |-> <<"nil">>, fail |-> <<"func", "fail">>] >>
+Datas == << [x |-> <<"int", 2>>, y |-> <<"map", [k |-> <<"bool", TRUE>>]>>, fail |-> <<"func", "fail">>, crec |-> <<"func", "crec">>],
+            [x |-> <<"dec", FALSE, <<2,5>>, -1>>, y |-> <<"map", [k |-> <<"int", 0>>]>>, fail |-> <<"func", "fail">>, crec |-> <<"func", "crec">>],
+            [y |-> <<"nil">>, fail |-> <<"func", "fail">>, crec |-> <<"func", "crec">>] >>
 
 ParseOf(i) == ParseTokens(Texts[i])
 EvalOf(i, j) == LET p == ParseOf(i) IN
